@@ -183,7 +183,7 @@ def run(chk, prog, pid):
             chk.selftest_failures.append("clippy cross-reference could not run: %r" % (e,))
     items = corpus_for(pid)
     jobs = [(pid, name, kind, payload, facts.REPO) for (name, kind, payload) in items]
-    with ThreadPoolExecutor(max_workers=8) as ex:
+    with ThreadPoolExecutor(max_workers=14) as ex:
         res = list(ex.map(replay_one, jobs))
     rep = []
     for name, status, detail in res:
@@ -192,7 +192,7 @@ def run(chk, prog, pid):
             chk.selftest_failures.append("mutant %s is no longer reported by %s (%s)" % (name, pid, detail))
     # behaviour-preserving refactorings must not be reported
     ejobs = [(pid, name, kind, payload, facts.REPO) for (name, kind, payload) in equivalents_for(pid)]
-    with ThreadPoolExecutor(max_workers=8) as ex:
+    with ThreadPoolExecutor(max_workers=14) as ex:
         eres = list(ex.map(replay_one, ejobs))
     erep = []
     for name, status, detail in eres:
